@@ -155,7 +155,8 @@ def run(tier, seed):
             for i in range(n):
                 if kinds[i] != "missing":
                     open(os.path.join(d, "g", "%s.sld" % NAMES[i]), "wb").write(source(i, adj[i], kinds[i]))
-            spec = {"stdlib": False, "natives": False, "progdir": d}
+            # the program directory is given absolute or relative to the process's working directory (which holds the decoys)
+            spec = {"stdlib": False, "natives": False, "progdir": d if ci % 2 == 0 else os.path.relpath(d, decoy)}
         else:
             spec = {"stdlib": False, "natives": False,
                     "libs": [{"name": ["g", NAMES[i]], "src": source(i, adj[i], kinds[i]).decode()} for i in range(n) if kinds[i] != "missing"]}
